@@ -136,7 +136,7 @@ class C18(Property):
     configs = ('A',)
     bytes_per_case = 96
     technique = 'property-based differential testing against CPython format() (Hypothesis, field-wise spec grammar + mutations)'
-    level_text = ('~100k (quick) / 5M (thorough) generated (format-spec, value) pairs over ints of any size, structured doubles, multi-byte text and '
+    level_text = ('~300k (quick) / 5M (thorough) generated (format-spec, value) pairs over ints of any size, structured doubles, multi-byte text and '
                   'bools, each compared with CPython format(): same text or both reject; panics are failures; listed open findings are excluded by '
                   'construction and counted')
     level_note = 'trusts CPython 3.11 format(); widths/precisions limited to 3 digits (or >= 21 digits, which must be rejected) to bound memory'
@@ -144,7 +144,7 @@ class C18(Property):
             'int/float/str/bool generators; non-trivial = spec with >= 2 non-default fields; distinct by case hash')
 
     def budget(self, tier):
-        return 100000 if tier == 'quick' else 5000000
+        return 300000 if tier == 'quick' else 5000000
 
     def explicit_cases(self, ctx):
         for spec in ['', 'd', 'x', '#x', '08.3f', ',', '_', ',d', '_x', '>10', '^10', '=+10', '+', ' ', '.3', '.3s', 'c', 'n', '%', 'e', 'g', '010,', '010_x',
